@@ -269,6 +269,11 @@ func (m *Method) M__call__(args Tuple, kwargs StringDict) (Object, error) {
 // Reading a method of a type through the type itself (list.append)
 // gives an unbound method which takes the receiver as first argument
 func (m *Method) M__get__(instance, owner Object) (Object, error) {
+	if m.Module != nil || m.Flags&METH_STATIC != 0 {
+		// a function of a module (print, len) or a static method never
+		// binds: its self stays the module it belongs to
+		return m, nil
+	}
 	if instance != None {
 		if m.objclass != nil {
 			if !instance.Type().IsSubtype(m.objclass) {
